@@ -209,11 +209,11 @@ PROPS = {
                # derived expressions (operator application, shortcuts, substitution, derivatives, also of
                # nodes carrying several stacked unary operators): the printed text of every result is
                # re-parsed in the harness and compared on variables and symbolic value
-               dict(kind="hist", quick=6000, thorough=150000, args=["diff"], corr=["pool", "steps"], oracle=[],
+               dict(kind="hist", quick=6000, thorough=60000, args=["diff"], corr=["pool", "steps"], oracle=[],
                     oracle_const=[("rtbad", "-")], nontrivial=lambda req, A, B: req.split("\t")[5].count("|") >= 1),
-               dict(kind="hist", quick=4000, thorough=100000, args=["default"], corr=["pool", "steps"], oracle=[],
+               dict(kind="hist", quick=4000, thorough=60000, args=["default"], corr=["pool", "steps"], oracle=[],
                     oracle_const=[("rtbad", "-")], nontrivial=lambda req, A, B: req.split("\t")[5].count("|") >= 1),
-               dict(kind="hist", quick=3000, thorough=100000, args=["subs"], corr=["pool", "steps"], oracle=[],
+               dict(kind="hist", quick=3000, thorough=60000, args=["subs"], corr=["pool", "steps"], oracle=[],
                     oracle_const=[("rtbad", "-")], nontrivial=lambda req, A, B: req.split("\t")[5].count("|") >= 1)],
     ),
     "C04": dict(
@@ -229,8 +229,8 @@ PROPS = {
                dict(kind="flat", quick=8000, thorough=200000, corr=["vars"], oracle=[("vars", "svars")],
                     guards=["render", "toks"], nontrivial=flat_nontrivial),
                # derived expressions (operator application, substitution, derivative): sorted union of the names
-               dict(kind="hist", quick=6000, thorough=150000, args=["diff"], corr=["pool", "steps"], oracle=[], nontrivial=lambda req, A, B: req.split("\t")[5].count("|") >= 1),
-               dict(kind="histf", quick=6000, thorough=150000, args=["diff"], no_model=True, corr=[], oracle_const=[("r", "ok")], nontrivial=lambda req, A, B: req.split("\t")[3].count("|") >= 1),
+               dict(kind="hist", quick=6000, thorough=60000, args=["diff"], corr=["pool", "steps"], oracle=[], nontrivial=lambda req, A, B: req.split("\t")[5].count("|") >= 1),
+               dict(kind="histf", quick=6000, thorough=100000, args=["diff"], no_model=True, corr=[], oracle_const=[("r", "ok")], nontrivial=lambda req, A, B: req.split("\t")[3].count("|") >= 1),
                dict(kind="histf", quick=4000, thorough=100000, args=["default"], no_model=True, corr=[], oracle_const=[("r", "ok")], nontrivial=lambda req, A, B: req.split("\t")[3].count("|") >= 1)],
     ),
     "C10": dict(
@@ -250,8 +250,8 @@ PROPS = {
                     "The model of the whole calculation API (union of variables, shortcuts of + * / pow, unknown names) is tied to the code by exact symbolic correspondence on histories, "
                     "and the implementation is judged against an independent f64 reference (operator applied to the operands' values) at random points"),
         rule="pools of 2-5 parsed expressions with overlapping/disjoint variable sets, histories of 1-6 applications through operate_binary/operate_unary, the overloaded + - * / pow and neg (deep form) incl. unknown names; symbolic data type: exact comparison of value/variables/printed text with the Lean model after every step; f64: value at 3 tame points and variable list against the reference; non-trivial = at least 2 steps; distinct by request hash",
-        kinds=[dict(kind="hist", quick=8000, thorough=250000, corr=["pool", "steps"], oracle=[], nontrivial=lambda req, A, B: req.split("\t")[5].count("|") >= 1),
-               dict(kind="histf", quick=8000, thorough=250000, no_model=True, corr=[], oracle_const=[("r", "ok")], nontrivial=lambda req, A, B: req.split("\t")[3].count("|") >= 1)],
+        kinds=[dict(kind="hist", quick=8000, thorough=60000, corr=["pool", "steps"], oracle=[], nontrivial=lambda req, A, B: req.split("\t")[5].count("|") >= 1),
+               dict(kind="histf", quick=8000, thorough=100000, no_model=True, corr=[], oracle_const=[("r", "ok")], nontrivial=lambda req, A, B: req.split("\t")[3].count("|") >= 1)],
     ),
     "C11": dict(
         level="proof",
@@ -265,11 +265,11 @@ PROPS = {
                     "subs goes through to_deepex/from_deepex (toDeep_sound, fromDeep_sound). The model of subs is tied to the code by exact symbolic correspondence, and the "
                     "implementation is judged against an independent f64 reference (substitution by environment) at random points"),
         rule="histories dominated by substitution steps (partial maps incl. self-referential, constant, renaming, swapping replacements; repeated substitution), flat and deep; symbolic: exact comparison with the Lean model; f64: values at tame points and variable lists against the reference; non-trivial = at least 2 steps; distinct by request hash",
-        kinds=[dict(kind="hist", quick=8000, thorough=250000, args=["subs"], corr=["pool", "steps"], oracle=[], nontrivial=lambda req, A, B: req.split("\t")[5].count("|") >= 1),
-               dict(kind="histf", quick=8000, thorough=250000, args=["subs"], no_model=True, corr=[], oracle_const=[("r", "ok")], nontrivial=lambda req, A, B: req.split("\t")[3].count("|") >= 1),
+        kinds=[dict(kind="hist", quick=8000, thorough=60000, args=["subs"], corr=["pool", "steps"], oracle=[], nontrivial=lambda req, A, B: req.split("\t")[5].count("|") >= 1),
+               dict(kind="histf", quick=8000, thorough=100000, args=["subs"], no_model=True, corr=[], oracle_const=[("r", "ok")], nontrivial=lambda req, A, B: req.split("\t")[3].count("|") >= 1),
                # substitution into derivatives (expressions that list variables which no longer occur)
-               dict(kind="hist", quick=5000, thorough=150000, args=["diff"], corr=["pool", "steps"], oracle=[], nontrivial=lambda req, A, B: "s:" in req.split("\t")[5]),
-               dict(kind="histf", quick=5000, thorough=150000, args=["diff"], no_model=True, corr=[], oracle_const=[("r", "ok")], nontrivial=lambda req, A, B: "s:" in req.split("\t")[3])],
+               dict(kind="hist", quick=5000, thorough=60000, args=["diff"], corr=["pool", "steps"], oracle=[], nontrivial=lambda req, A, B: "s:" in req.split("\t")[5]),
+               dict(kind="histf", quick=5000, thorough=100000, args=["diff"], no_model=True, corr=[], oracle_const=[("r", "ok")], nontrivial=lambda req, A, B: "s:" in req.split("\t")[3])],
     ),
     "C05": dict(
         level="proof",
@@ -288,8 +288,8 @@ PROPS = {
                     "to the code by exact symbolic correspondence of the derivative expressions, and the implementation is judged against an independent reference "
                     "(symbolic textbook differentiation evaluated in f64) at tame points"),
         rule="expression trees over + - * / ^ (variable exponents), unary +/-, sqrt ln log log2 log10 exp and the (inverse) trigonometric and hyperbolic functions, plus 0-10% operators without rule; index sequences of length 0..3; flat and deep; previously differentiated and substituted expressions; symbolic: exact comparison of the derivative expression with the Lean model; f64: value of the derivative at 3 tame points against textbook differentiation; non-trivial = at least one differentiation step; distinct by request hash",
-        kinds=[dict(kind="hist", quick=8000, thorough=250000, args=["diff"], corr=["pool", "steps"], oracle=[], nontrivial=lambda req, A, B: "p:" in req.split("\t")[5]),
-               dict(kind="histf", quick=10000, thorough=300000, args=["diff"], no_model=True, corr=[], oracle_const=[("r", "ok")], nontrivial=lambda req, A, B: "p:" in req.split("\t")[3])],
+        kinds=[dict(kind="hist", quick=8000, thorough=60000, args=["diff"], corr=["pool", "steps"], oracle=[], nontrivial=lambda req, A, B: "p:" in req.split("\t")[5]),
+               dict(kind="histf", quick=10000, thorough=100000, args=["diff"], no_model=True, corr=[], oracle_const=[("r", "ok")], nontrivial=lambda req, A, B: "p:" in req.split("\t")[3])],
     ),
     "C09": dict(
         level="proof",
@@ -306,8 +306,8 @@ PROPS = {
                     "symmetry of mixed partials (a fact about the functions denoted, judged numerically). The model is tied to the code by exact symbolic correspondence and "
                     "judged against the reference (error for an out-of-range index, variable list, sequential textbook derivatives)"),
         rule="as C05 with index sequences of length 0..3 incl. out-of-range entries (10%), repeated and mixed indices; the variable list of every derivative must equal that of its antiderivative (also after substitution), an out-of-range index must be an error; non-trivial = at least one differentiation step; distinct by request hash",
-        kinds=[dict(kind="hist", quick=8000, thorough=250000, args=["diff"], corr=["pool", "steps"], oracle=[], nontrivial=lambda req, A, B: "p:" in req.split("\t")[5]),
-               dict(kind="histf", quick=10000, thorough=300000, args=["diff"], no_model=True, corr=[], oracle_const=[("r", "ok")], nontrivial=lambda req, A, B: "p:" in req.split("\t")[3])],
+        kinds=[dict(kind="hist", quick=8000, thorough=60000, args=["diff"], corr=["pool", "steps"], oracle=[], nontrivial=lambda req, A, B: "p:" in req.split("\t")[5]),
+               dict(kind="histf", quick=10000, thorough=100000, args=["diff"], no_model=True, corr=[], oracle_const=[("r", "ok")], nontrivial=lambda req, A, B: "p:" in req.split("\t")[3])],
     ),
     "C18": dict(
         level="proof",
@@ -323,7 +323,7 @@ PROPS = {
                     "implementation is judged numerically on the real value type against branch-wise textbook differentiation at points off the branch boundaries"),
         rule="nested piecewise expressions `f if cond else g` with arithmetic around them, ints and floats mixed, comparison conditions that depend on a variable; parse_val(..).partial_iter(idxs).eval(point) at 3 tame points (>= 1e-3 away from every comparison boundary) against branch-wise textbook derivatives, order 1 and 2; comparisons at top level must stay untouched; plus the symbolic correspondence of the rule table (hist, piecewise profile); non-trivial = contains a piecewise or comparison node; distinct by request hash",
         kinds=[dict(kind="valdiff", quick=12000, thorough=400000, no_model=True, corr=[], oracle_const=[("r", "ok")], nontrivial=lambda req, A, B: b" if " in bytes.fromhex(req.split("\t")[1]) or A.get("judged", "0") != "0"),
-               dict(kind="hist", quick=6000, thorough=150000, args=["val"], corr=["pool", "steps"], oracle=[], nontrivial=lambda req, A, B: "p:" in req.split("\t")[5])],
+               dict(kind="hist", quick=6000, thorough=60000, args=["val"], corr=["pool", "steps"], oracle=[], nontrivial=lambda req, A, B: "p:" in req.split("\t")[5])],
     ),
     "C19": dict(
         level="translation_validation",
